@@ -101,7 +101,9 @@ func c01Decorate(c *core.C, s *gen.Schema) (feat []string) {
 	}
 	// a workspace-supplied copy of a well-known type takes the place of the built-in one
 	if c.Rand.IntN(5) == 0 {
-		m := s.Modules[c.Rand.IntN(len(s.Modules))]
+		// in the first module: every module that imports the type then depends on it, and only the
+		// first module is guaranteed not to depend on any other (no module cycle is created)
+		m := s.Modules[0]
 		m.Files = append(m.Files, &gen.File{
 			Path: "google/protobuf/timestamp.proto", Syntax: "proto3", Package: "google.protobuf",
 			Header:  "Workspace-supplied copy of a well-known type.",
